@@ -367,6 +367,35 @@ def split_mapping_failures(bs, r):
     return fails
 
 
+def recovery_failures(bs, r):
+    """ParseWithRecoveryFromModelTokens: every recovered error is located (1-based, inside, at the first character of some
+    token), its Line/Column are those of its cause, and the first one is where the strict position-tracking parser stops"""
+    T = Text(bs)
+    fails = []
+    pr = r.get("parse")
+    if not pr or pr.get("rec_panic") or pr["err"]["nil"] or not pr["err"].get("structured"):
+        return fails
+    recs = pr.get("rec_errs") or []
+    if not recs:
+        return fails            # whether recovery must report an error here is C12's question, not a position
+    starts = {(t["sl"], t["sc"]) for t in r["tokens"]} | {(q["sl"], q["sc"]) for q in pr.get("positions") or []}
+    for k, e in enumerate(recs):
+        if not e.get("typed") or not e["cause"].get("structured"):
+            continue
+        if e["line"] < 1 or e["col"] < 1:
+            fails.append(("recovery_no_location", "recovered error %d (%s) carries location %d:%d" % (k, e["cause"].get("code"), e["line"], e["col"])))
+            continue
+        if (e["line"], e["col"]) != (e["cause"]["line"], e["cause"]["col"]):
+            fails.append(("recovery_location", "recovered error %d is reported at %d:%d, its cause at %d:%d" % (k, e["line"], e["col"], e["cause"]["line"], e["cause"]["col"])))
+        if (e["line"], e["col"]) not in starts:
+            fails.append(("recovery_location", "recovered error %d at %d:%d is not at the first character of any token" % (k, e["line"], e["col"])))
+    f0 = recs[0]
+    if f0.get("typed") and f0["cause"].get("structured") and f0["line"] >= 1 and (f0["line"], f0["col"]) != (pr["err"]["line"], pr["err"]["col"]) \
+            and f0["cause"].get("code") == pr["err"].get("code"):
+        fails.append(("recovery_location", "first recovered error at %d:%d, the strict position-tracking parser stops at %d:%d" % (f0["line"], f0["col"], pr["err"]["line"], pr["err"]["col"])))
+    return fails
+
+
 def true_offsets(bs, r):
     """(start, end) byte offsets of every token of a successfully tokenized input, derived as in token_oracle; None if not derivable"""
     T = Text(bs)
@@ -727,7 +756,7 @@ def eval_input(bs, parse=False):
     fails, _ = token_oracle(bs, r)
     if parse:
         f2, _ = parse_oracle(bs, r, true_offsets(bs, r))
-        fails = fails + f2 + split_mapping_failures(bs, r)
+        fails = fails + f2 + split_mapping_failures(bs, r) + recovery_failures(bs, r)
     return fails
 
 
@@ -790,6 +819,14 @@ def run(tier):
     if p2.returncode != 0 or len(res_tbl) != len(tbl_inputs):
         rp.violation({"kind": "harness", "detail": p2.stderr[-2000:]}, "loc_harness_tbl", no_input=True)
         return rp.finish()
+
+    unstable = [b for b, r in zip(tbl_inputs, res_tbl) if "tbl" in r and not r.get("tbl_stable", True)]
+    rp.obligation("toSQLPosition is a function of (input, offset): same answers queried forwards, backwards, in stride and zig-zag order and after the instance read another input (%d inputs)"
+                  % len(tbl_inputs), not unstable)
+    for b in unstable[:2]:
+        rp.violation({"kind": "oracle", "failure": "loc_order_dependent", "hex": b.hex(), "text": b.decode("utf-8", "replace"), "tbl": True,
+                      "explanation": "toSQLPosition reports different line/column for the same offset of the same input depending on which offsets were asked before (or on an earlier input of the instance)"},
+                     "loc_order_dependent_%d" % len(rp.violations))
 
     # ---- oracle on tokens / comments / tokenizer errors
     dist = {}
@@ -886,7 +923,8 @@ def run(tier):
             continue
         pstats["rejected_by_parser"] += 1
         fails, info = parse_oracle(bs, r, true_offsets(bs, r))
-        fails = fails + split_mapping_failures(bs, r)
+        fails = fails + split_mapping_failures(bs, r) + recovery_failures(bs, r)
+        pstats["recovered_errors"] = pstats.get("recovered_errors", 0) + len(pr.get("rec_errs") or [])
         if info:
             pstats["codes"][info["code"]] = pstats["codes"].get(info["code"], 0) + 1
             pstats["by_kind"][cmeta[i][0]] = pstats["by_kind"].get(cmeta[i][0], 0) + 1
@@ -1047,6 +1085,11 @@ def report_failures(rp, kf, fail_by_kind, inputs, origin, parse):
 
 def replay(path):
     d = json.load(open(path))
+    if d.get("hex") is not None and d.get("tbl"):
+        p, res = run_loc([bytes.fromhex(d["hex"])], tbl=True)
+        bad = not res or not res[0].get("tbl_stable", False)
+        print(json.dumps({"tbl_stable": not bad}))
+        return 1 if bad else 0
     if d.get("hex") is not None:
         bs = bytes.fromhex(d["hex"])
         f = eval_input(bs, parse=bool(d.get("parse")))
